@@ -56,6 +56,7 @@ func SetTimeout(fn func(), sleep time.Duration) *Timer {
 	timer.fn = func() {
 		select {
 		case <-timer.timer.C:
+			vhook.Yield("timer.timeout.tick")
 			fn()
 		case <-timer.stopCh:
 			return
